@@ -40,7 +40,39 @@ def shaped(names, shape):
     q = sorted(names)
     return q + [q[0]] if shape == 'dup' else q + [''] if shape == 'empty' else q
 
+# Stream-name alphabets: the specification orders the streams sa < sb < sc (GroupOps.tla StreamOrder = the byte order of
+# sort.Strings, which is what makes every server rebalance a member's streams in the same order).  The real names a
+# behaviour uses keep that byte order, but compare differently - or as EQUAL - under other collations: pairs that differ
+# only in case, a name that is a prefix of the next, shorter-sorts-later, digits (natural order), upper before lower.
+# The drivers send the real names and rename the recorded state back (harness/server/fsm_common_verif_test.go v12Names).
+ALPHABETS = [
+    ('plain', None),
+    ('case12', ['Orders', 'orders', 'payments']),
+    ('prefix', ['foo', 'foo-bar', 'foo0']),
+    ('case23', ['Audit', 'Orders', 'orders']),
+    ('length', ['aa', 'b', 'c0']),
+    ('case12b', ['A', 'a', 'b']),
+    ('digits', ['s10', 's2', 's9']),
+    ('case13', ['Orders', 'audit', 'orders']),
+    ('upper', ['Zeta', 'alpha', 'beta']),
+]
+MODEL_STREAMS = ['sa', 'sb', 'sc']
+assert all(a is None or (sorted(a) == a and len(set(a)) == 3) for _, a in ALPHABETS)
+REPLAY_REPEATS = 8   # Go's map order differs between instances: a replayed behaviour is executed this many times
+
+
+def with_names(cfg, k):
+    """the k-th alphabet (rotating) for a behaviour's configuration"""
+    name, real = ALPHABETS[k % len(ALPHABETS)]
+    cfg['alphabet'] = name
+    if real:
+        cfg['names'] = dict(zip(MODEL_STREAMS, real))
+    return cfg
+
+
 LABELS = {
+    'MCPause': lambda a: {'a': 'Pause', 's': a[0], 'p': a[1]},
+    'MCResume': lambda a: {'a': 'Resume', 's': a[0], 'p': a[1]},
     'MCCreateStream': lambda a: {'a': 'CreateStream', 's': a[0], 'n': a[1]},
     'MCDeleteStream': lambda a: {'a': 'DeleteStream', 's': a[0]},
     'MCCreateGroup': lambda a: {'a': 'CreateGroup', 'c': a[0], 'streams': shaped(a[1]['__set__'], a[3]), 'coord': a[2]},
@@ -59,7 +91,7 @@ def sweep(consumers, rng):
             [{'a': 'GetAssignments', 'srv': rng.choice(SERVERS), 'c': rng.choice(consumers), 'd': 1}])
 
 
-def from_graph(g, consumers, first_id, rng):
+def from_graph(g, consumers, first_id, rng, rot=0):
     paths, covered, total = graph.cover(g)
     out = []
     for root, p in paths:
@@ -68,12 +100,13 @@ def from_graph(g, consumers, first_id, rng):
         for i in p:
             name, args = graph.parse_label(g['edges'][i][2])
             steps.append(LABELS[name](args))
-        out.append({'id': first_id + len(out), 'cfg': {'servers': SERVERS, 'streams': sorted(parts), 'parts': parts},
+        out.append({'id': first_id + len(out),
+                    'cfg': with_names({'servers': SERVERS, 'streams': sorted(parts), 'parts': parts}, rot + first_id + len(out)),
                     'steps': steps + sweep(consumers, rng)})
     return out, covered, total
 
 
-def from_sim(sims, first_id, rng):
+def from_sim(sims, first_id, rng, rot=0):
     out = []
     for beh in sims:
         if len(beh) < 2:
@@ -85,7 +118,8 @@ def from_sim(sims, first_id, rng):
             a.pop('e', None) if a['a'] == 'GetAssignments' else None
             a.pop('order', None)   # the real order is whatever the Go map delivers; it is recorded
             steps.append(a)
-        out.append({'id': first_id + len(out), 'cfg': {'servers': SERVERS, 'streams': sorted(parts), 'parts': parts},
+        out.append({'id': first_id + len(out),
+                    'cfg': with_names({'servers': SERVERS, 'streams': sorted(parts), 'parts': parts}, rot + first_id + len(out)),
                     'steps': steps + sweep(['c1', 'c2', 'c3', 'c4'], rng)})
     return out
 
@@ -98,6 +132,9 @@ def feats(b):
     ever = {s: n for s, n in parts.items() if n}
     named_missing = set()
     group = False
+    paused = set()       # (stream, partition) paused at this point
+    multi = 0            # admitted subscriptions to more than one stream (their processing order matters)
+    alpha = b['cfg'].get('alphabet', 'plain')
     f, prev = set(), None
     for s in b['steps']:
         a = s['a']
@@ -110,6 +147,9 @@ def feats(b):
             q += ':dup' if len(set(s['streams'])) < len(s['streams']) else ''
             q += ':emptyname' if '' in s['streams'] else ''
             named_missing.update(miss)
+            if not miss and (group or a == 'CreateGroup'):
+                multi += len(set(s['streams'])) > 1
+                q += ':on-paused' if any(x in s['streams'] for x, _ in paused) else ''
             if a == 'CreateGroup' and not miss:
                 group = True
         elif a == 'CreateStream':
@@ -121,13 +161,25 @@ def feats(b):
             parts[s['s']] = ever[s['s']] = s['n']
         elif a == 'DeleteStream':
             parts[s['s']] = 0
+            paused = {x for x in paused if x[0] != s['s']}
             q += ':group' if group else ''
+            q += ':while-paused' if group and paused else ''
         elif a == 'Leave':
             q += ':' + s.get('how', 'leave')
+            q += ':while-paused' if group and paused else ''
+        elif a == 'Restore':
+            q += ':while-paused' if group and paused else ''
+        elif a in ('Pause', 'Resume'):
+            (paused.add if a == 'Pause' else paused.discard)((s['s'], s['p']))
+            q += ':group' if group else ''
         f.add(q)
         if prev:
             f.add(prev + '>' + q)
         prev = q
+    if alpha != 'plain':
+        f.add('names:' + alpha)
+        if multi >= 2:
+            f.add('multi2:' + alpha)
     return f
 
 
@@ -155,44 +207,39 @@ def nontrivial(b):
 
 
 def key(b):
-    return core.sha([b['cfg']['parts'], [s for s in b['steps'] if s['a'] != 'GetAssignments']])
+    return core.sha([b['cfg']['parts'], b['cfg'].get('alphabet'), [s for s in b['steps'] if s['a'] != 'GetAssignments']])
 
 
-def execute(sets, d, timeout=1500):
-    """sets: {binding: behaviours}; one go test process runs the in-process bindings, a second one the real one-node
-    server (a request the FSM cannot apply makes Server.Apply panic in a Raft goroutine and takes the process down:
-    that is recorded as a Crash line and judged, not an infrastructure failure)"""
-    env, traces = {}, {}
-    for binding, behaviours in sets.items():
-        stim = os.path.join(d, 'stim-%s.json' % binding)
-        traces[binding] = os.path.join(d, 'trace-%s.ndjson' % binding)
-        core.write_json(stim, {'behaviours': behaviours})
-        if os.environ.get('VERIF_KEEP'):
-            core.log('stimuli at', stim)
-        env['VERIF_STIMULI_' + BINDINGS[binding][1]] = stim
-        env['VERIF_TRACE_OUT_' + BINDINGS[binding][1]] = traces[binding]
-    inproc = [b for b in sets if b != 'race']
-    tests = '|'.join(BINDINGS[b][0] for b in inproc)
-    subs = sorted({s for b in sets for s in BINDINGS[b][2]})
-    rc, out, wall = core.go_test('server', '^(%s)$' % tests, env, timeout=timeout, subs=subs)
-    core.log('C12 go test wall %.1fs: %s' % (wall, out.strip().splitlines()[-1] if out.strip() else ''))
-    if rc != 0 or not all(os.path.exists(traces[b]) for b in inproc):
-        raise core.Inconclusive('harness failed rc=%s: %s' % (rc, out[-3000:]))
-    if 'race' in sets:
-        rc, out, wall = core.go_test('server', '^%s$' % BINDINGS['race'][0], env, timeout=600, subs=subs)
-        core.log('C12 real-server go test wall %.1fs rc=%s' % (wall, rc))
-        if rc != 0:
-            import json
-            import re
-            m = re.search(r'^panic: (.*)$', out, re.M)
-            lines = core.read_ndjson(traces['race']) if os.path.exists(traces['race']) else []
-            if not m or 'INCONCLUSIVE' in out or not lines:
-                raise core.Inconclusive('real-server harness failed rc=%s: %s' % (rc, out[-3000:]))
-            last = lines[-1]
-            crash = dict(last, a='Crash', args={'panic': m.group(1)[:300]}, obs=dict(last['obs'], a='Crash', err='crash'))
-            with open(traces['race'], 'a') as fh:
-                fh.write(json.dumps(crash) + '\n')
-    return traces
+def execute_one(binding, behaviours, d, subs, timeout=1500):
+    """one go test process for one binding; returns the trace file.  The real one-node server ('race'): a request the
+    FSM cannot apply makes Server.Apply panic in a Raft goroutine and takes the process down - that is recorded as a
+    Crash line and judged, not an infrastructure failure"""
+    stim = os.path.join(d, 'stim-%s.json' % binding)
+    trace = os.path.join(d, 'trace-%s.ndjson' % binding)
+    core.write_json(stim, {'behaviours': behaviours})
+    if os.environ.get('VERIF_KEEP'):
+        core.log('stimuli at', stim)
+    env = {'VERIF_STIMULI_' + BINDINGS[binding][1]: stim, 'VERIF_TRACE_OUT_' + BINDINGS[binding][1]: trace}
+    if binding != 'race':
+        rc, out, wall = core.go_test('server', '^%s$' % BINDINGS[binding][0], env, timeout=timeout, subs=subs)
+        core.log('C12 go test %s wall %.1fs: %s' % (binding, wall, out.strip().splitlines()[-1] if out.strip() else ''))
+        if rc != 0 or not os.path.exists(trace):
+            raise core.Inconclusive('harness failed rc=%s: %s' % (rc, out[-3000:]))
+        return trace
+    rc, out, wall = core.go_test('server', '^%s$' % BINDINGS['race'][0], env, timeout=600, subs=subs)
+    core.log('C12 real-server go test wall %.1fs rc=%s' % (wall, rc))
+    if rc != 0:
+        import json
+        import re
+        m = re.search(r'^panic: (.*)$', out, re.M)
+        lines = core.read_ndjson(trace) if os.path.exists(trace) else []
+        if not m or 'INCONCLUSIVE' in out or not lines:
+            raise core.Inconclusive('real-server harness failed rc=%s: %s' % (rc, out[-3000:]))
+        last = lines[-1]
+        crash = dict(last, a='Crash', args={'panic': m.group(1)[:300]}, obs=dict(last['obs'], a='Crash', err='crash'))
+        with open(trace, 'a') as fh:
+            fh.write(json.dumps(crash) + '\n')
+    return trace
 
 
 def judge(rep, behaviours, res, binding):
@@ -255,11 +302,22 @@ def race_behaviours(rng, n, first_id):
 
 
 def run_bindings(rep, sets, d):
+    """two pipelines side by side: direct binding (go test, then TLC) | Server.apply binding, then the real one-node
+    server (go test each, then TLC each); one single-worker TLC per trace"""
     from concurrent.futures import ThreadPoolExecutor
-    traces = execute(sets, d)
-    with ThreadPoolExecutor(max_workers=2) as ex:   # one single-worker TLC per binding
-        futs = {b: ex.submit(core.tlc_trace, 'Trace_Groups.tla', 'Trace_Groups.cfg', traces[b], 1500) for b in sets}
-        results = {b: f.result() for b, f in futs.items()}
+    subs = sorted({s for b in sets for s in BINDINGS[b][2]})
+
+    def pipeline(bs):
+        out = {}
+        traces = {b: execute_one(b, sets[b], d, subs) for b in bs}
+        for b in bs:
+            out[b] = core.tlc_trace('Trace_Groups.tla', 'Trace_Groups.cfg', traces[b], 1500)
+        return out
+    lanes = [[b for b in sets if b == 'direct'], [b for b in sets if b != 'direct']]
+    results = {}
+    with ThreadPoolExecutor(max_workers=2) as ex:
+        for f in [ex.submit(pipeline, bs) for bs in lanes if bs]:
+            results.update(f.result())
     for b, r in results.items():
         core.log('C12 trace validation %s: %d lines in %.1fs' % (b, r['lines'], r['wall']))
     return {b: judge(rep, sets[b], results[b], b) for b in sets}
@@ -274,8 +332,11 @@ def run(rep, tier, seed, replay):
     rng = random.Random(seed)
     if replay:
         r = replay['replay']
+        # two servers that applied the same operations are compared on independently built states; what depends on
+        # Go's map iteration order differs from one execution to the next: the behaviour is executed several times
+        rb = [dict(b, id=b['id'] * 100 + k) for b in r['behaviours'] for k in range(REPLAY_REPEATS)]
         with core.scratch('c12') as d:
-            run_bindings(rep, {r.get('binding', 'direct'): r['behaviours']}, d)
+            run_bindings(rep, {r.get('binding', 'direct'): rb}, d)
         rep.cov['rule'] = 'replay of a saved stimulus'
         rep.cov['samples'] = r['behaviours'][:1]
         return
@@ -300,9 +361,12 @@ def run(rep, tier, seed, replay):
     # count, then group operations; 6 steps) - both tiers
     behaviours, covered, total = [], 0, 0
     for cfg, consumers in (('MC_Groups_replay.cfg' if quick else 'MC_Groups_replay_thorough.cfg', ['c1', 'c2', 'c3']),
-                           ('MC_Groups_replay_recreate.cfg', ['c1', 'c2'])):
+                           ('MC_Groups_replay_recreate.cfg', ['c1', 'c2']),
+                           # directed family: pause / resume of partitions between the group operations (2 streams,
+                           # <= 2 partitions, 2 consumers, 3 steps incl. restore and stream deletion) - both tiers
+                           ('MC_Groups_replay_pause.cfg', ['c1', 'c2'])):
         g = graph.tlc_dump('MC_Groups.tla', cfg, workers=min(core.NCPU, 8), timeout=1500)
-        gb, cv, tt = from_graph(g, consumers, len(behaviours) + 1, rng)
+        gb, cv, tt = from_graph(g, consumers, len(behaviours) + 1, rng, seed)
         behaviours += gb
         covered, total = covered + cv, total + tt
     lap('dot dump')
@@ -310,7 +374,7 @@ def run(rep, tier, seed, replay):
     # a pool four times as large is simulated; the behaviours to execute are chosen by feature coverage
     nsim = 600 if quick else 6000
     sims = core.tlc_simulate('MC_Groups.tla', 'Sim_Groups.cfg', 4 * nsim, 14, seed, timeout=1200)
-    chosen, nfeat = quota_cover(from_sim(sims, 0, rng), nsim)
+    chosen, nfeat = quota_cover(from_sim(sims, 0, rng, seed), nsim)
     rep.cov['simulation_features_covered'] = nfeat
     for b in chosen:
         b['id'] = len(behaviours) + 1
